@@ -284,7 +284,7 @@ def src_search(ctx, cells):
 
 
 LOAD_TO_STORE = {'lu': 'u', 'pu': 'u', 'li': 'i', 'pi': 'i', 'lvu': 'vu', 'pvu': 'vu', 'lvi': 'vi', 'pvi': 'vi', 'lc': 'c', 'pc': 'c', 'lb': 'b', 'pb': 'b',
-                 'lby': 'by', 'pby': 'by', 'bit': 'bit', 'pbit': 'bit', 'lbool': 'bit', 'pbool': 'bit', 'sk': 'b', 'lr': 'r', 'lmr': 'mr', 'pmr': 'mr'}
+                 'lby': 'by', 'pby': 'by', 'bit': 'bit', 'pbit': 'bit', 'lbool': 'bit', 'pbool': 'bit', 'sk': 'b', 'lr': 'r', 'lmr': 'mr', 'pmr': 'mr', 'pr': 'r', 'la': 'a', 'pa': 'a', 'ld': 'd', 'pd': 'd', 'ls': 's', 'ps': 's'}
 
 
 def src_search_methods(ctx):
